@@ -48,6 +48,17 @@ SETS = {
     },
 }
 
+SETS["c-system-includes"] = {
+    "main.h": '#include <stddef.h>\n#include <stdint.h>\n#include "inc_a.h"\n'
+              'struct Sys { size_t n; uint32_t w; struct A a; other_t o; };\nptrdiff_t diff(const struct Sys*, const struct Sys*);\n',
+    "inc_a.h": '#include <stdint.h>\nstruct A { int64_t big; uint8_t small[3]; };\n',
+    "inc_b.h": 'struct Unused { int u; };\n',
+    "inactive.h": 'struct Never { int z; };\n',
+    "other.h": 'typedef unsigned long other_t;\n',
+    "flags": [],
+    "paths": ["main.h", "other.h", "inc_a.h", "stddef.h", "stdint.h"],
+}
+
 PATH_CLASSES = ["main.h", "other.h", "inc_a.h", "inc_b.h", "inactive.h"]
 OPS = ["open", "stat", "read", "mmap", "access"]
 ERRNOS = ["ENOENT", "EACCES", "EISDIR", "ENOTDIR", "ELOOP", "ENAMETOOLONG", "EIO", "EMFILE", "ENOMEM"]
@@ -58,7 +69,7 @@ def make_set(root, name):
     os.makedirs(d, exist_ok=True)
     spec = SETS[name]
     for fn, text in spec.items():
-        if fn == "flags":
+        if fn in ("flags", "paths"):
             continue
         with open(os.path.join(d, fn), "w") as f:
             f.write(text)
@@ -182,10 +193,10 @@ def classify(obs, fired, ref, expect=None):
 
 # ---------------------------------------------------------------- plans
 
-def single_fault_plans(quick):
+def single_fault_plans(quick, paths=None):
     plans = []
     nths = (1, 2) if quick else (1, 2, 3)
-    for pc in PATH_CLASSES:
+    for pc in (paths or PATH_CLASSES):
         for op in OPS:
             for nth in nths:
                 if op in ("open", "stat", "access"):
@@ -200,8 +211,8 @@ def single_fault_plans(quick):
     return plans
 
 
-def pair_plans(rng, n):
-    singles = [p[0] for p in single_fault_plans(False)]
+def pair_plans(rng, n, paths=None):
+    singles = [p[0] for p in single_fault_plans(False, paths)]
     return [[rng.pick(singles), rng.pick(singles)] for _ in range(n)]
 
 
@@ -321,9 +332,9 @@ def run(tier, seed):
             if ref.get("kind") != "ok":
                 out.harness_errors.append(f"fault-free reference of {sname} is not ok: {ref}")
                 continue
-            plans = single_fault_plans(quick)
+            plans = single_fault_plans(quick, SETS[sname].get("paths"))
             prng = Rng.for_case(seed, "c12-pairs", sname)
-            plans += pair_plans(prng, 60 if quick else 2500)
+            plans += pair_plans(prng, 60 if quick else 2500, SETS[sname].get("paths"))
             scen = [{"req": req, "plan": p, "tag": f"{sname}-{i}"} for i, p in enumerate(plans)]
             res = run_children(scen, work)
             # determinism self-check: a slice of the scenarios again, sequentially
